@@ -1292,6 +1292,9 @@ func (c *Ctx) RuleLastIndex() *Result {
 			key := fmt.Sprintf("%s:%s[len-%d]", load.FnName(fn), valueLabel(base), k)
 			guard := func(cond ssa.Value, val bool) bool {
 				b, ok := cond.(*ssa.BinOp)
+				if ok && k == 1 && notEmptyString(b, base, val) {
+					return true
+				}
 				if !ok || !lenOf(b.X) {
 					return false
 				}
@@ -1507,11 +1510,32 @@ func (c *Ctx) RuleProcStart() *Result {
 }
 
 // lenGuardFor: an edge predicate "len(v) > k is known".
+// notEmptyString: the edge (b, val) says that the string v is not "".
+func notEmptyString(b *ssa.BinOp, v ssa.Value, val bool) bool {
+	var other ssa.Value
+	switch {
+	case b.X == v:
+		other = b.Y
+	case b.Y == v:
+		other = b.X
+	default:
+		return false
+	}
+	if s, ok := constString(other); !ok || s != "" {
+		return false
+	}
+	return (b.Op == token.NEQ && val) || (b.Op == token.EQL && !val)
+}
+
 func lenGuardFor(v ssa.Value, k int64) func(cond ssa.Value, val bool) bool {
 	return func(cond ssa.Value, val bool) bool {
 		b, ok := cond.(*ssa.BinOp)
 		if !ok {
 			return false
+		}
+		// v != "" (or the false side of v == "") is len(v) >= 1
+		if notEmptyString(b, v, val) && k == 0 {
+			return true
 		}
 		lc, ok := b.X.(*ssa.Call)
 		if !ok {
